@@ -812,3 +812,63 @@ def report_method_recursion(ctx, rule):
         ctx.fail(rule, f, f.node, "depends model (method-name recursion): %s (%d disagreeing case(s))" % (problems[0], len(problems)), key=f.qualname + "::method-recursion")
     else:
         ctx.ok(rule, f, f.node, "depends model: a dependency on another method brings in every (parameter, what) pair and dynamic spec that method names (%d orders)" % n)
+
+
+# --------------------------------------------------------------------------------------------------
+# (g) a group of constant dependencies that names a parameter twice
+# --------------------------------------------------------------------------------------------------
+def constant_group(ctx):
+    """Parameters._watch_group interpreted for a group of CONSTANT dependencies in which the same parameter occurs twice
+    (the method depends on `a` directly and again through a method it names) next to `b`.  Specification: one watcher,
+    whose parameter list holds each name once (a watcher registered twice for a parameter is called twice per plain
+    assignment), no change filter, no re-resolve callback."""
+    f = ctx.repo.func(P + "Parameters._watch_group")
+    problems, n = [], 0
+    top = Obj("instance", cb=Obj("bound_method_cb"))
+    top.attrs["param"] = Obj("namespace", owner_obj=top)
+    cls = Obj("Cls")
+    mk = lambda nm: Obj("PInfo(%s)" % nm, inst=top, cls=cls, name=nm, what="value")
+    for names in (["a", "a", "b"], ["a", "b", "a"], ["a", "a", "a"]):
+        group = [(None, mk(x)) for x in names]
+        installed = []
+
+        def hook(fn, args, kwargs):
+            if fn == "iscoroutinefunction":
+                return False
+            if fn == "partial" and args:
+                return Obj("partial", func=args[0], kwargs=dict(kwargs))
+            if fn.endswith(".param._watch") and len(args) >= 2:
+                installed.append((args[0], list(args[1]) if isinstance(args[1], list) else args[1], args[2] if len(args) > 2 else kwargs.get("what", "value")))
+                return Obj("watcher")
+            return NotImplemented
+        it = Interp(ctx.hier, dyn=P + "Parameters", inline=lambda m: m == "_resolve_dynamic_deps", call_hook=hook, inline_module_functions=True,
+                    globals={"_sync_caller": Obj("_sync_caller"), "_async_caller": Obj("_async_caller")}, strict_self_calls=True)
+        try:
+            outs = it.run_all(f, {"self_": Obj("ns", self=top), "obj": top, "name": "cb", "queued": False, "group": list(group), "attribute": None})
+        except Unsupported as e:
+            raise AnalysisError("depends model: absint cannot interpret Parameters._watch_group (constant group): %s" % e)
+        if len(outs) != 1 or outs[0].imprecise or outs[0].kind != "return" or len(installed) != 1:
+            raise AnalysisError("depends model: Parameters._watch_group is not interpretable precisely on a constant group (%s)" % (outs[0].notes[:2] if outs else "no outcome"))
+        n += 1
+        mcaller, params, what = installed[0]
+        want = []
+        for x in names:
+            if x not in want:
+                want.append(x)
+        if not isinstance(params, list) or sorted(params) != sorted(want):
+            problems.append("a method whose constant dependencies name %s installs a watcher for %s, specification each name once (%s): the watcher is registered once per listed name, so "
+                            "one plain assignment of a repeated parameter calls the method more than once" % (names, params, want))
+        kw = mcaller.attrs.get("kwargs", {}) if isinstance(mcaller, Obj) else {}
+        if kw.get("changed") is not None or kw.get("callback") is not None:
+            problems.append("a group of constant dependencies gets a change filter / callback (%r)" % ({k: kw.get(k) for k in ("changed", "callback")},))
+    return n, problems
+
+
+def report_constant_group(ctx, rule):
+    n, problems = constant_group(ctx)
+    f = ctx.repo.func(P + "Parameters._watch_group")
+    ctx.abstract_cases += n
+    if problems:
+        ctx.fail(rule, f, f.node, "depends model (constant group): %s (%d disagreeing case(s))" % (problems[0], len(problems)), key=f.qualname + "::constant-group")
+    else:
+        ctx.ok(rule, f, f.node, "depends model: a constant group that names a parameter twice yields one watcher listing each name once (%d groups)" % n)
